@@ -47,7 +47,7 @@ fn mk(meshes: Vec<Mesh>, lods: Vec<MeshLod>, lod_count: u8, ndecl: u16) -> MDL {
 }
 fn pad16_ok(size: u32, raw: u32) -> bool { size % 16 == 0 && size > raw && size <= raw + 16 }
 
-//@unit props=C07 label=S tier=quick fn=model::MDL::update_headers bound="1 LOD x 2 meshes, stream strides {20,24}; every vertex/index count, previous offset and size symbolic (index counts < 2^24 so sizes fit u32)"
+//@unit props=C07 label=S tier=thorough fn=model::MDL::update_headers bound="1 LOD x 2 meshes, stream strides {20,24}; every vertex/index count, previous offset and size symbolic (index counts < 2^24 so sizes fit u32)"
 //@desc per-mesh stream offsets are the running sum of count*stride (disjoint, in bounds); vertex_buffer_size = sum count*sum strides; index_buffer_size = 2*sum index_count padded by 1..16 to a multiple of 16; index section follows vertex section; next LOD follows; file-header arrays mirror the LOD; start_index from the sub-mesh; untouched mesh fields unchanged
 #[kani::proof]
 #[kani::unwind(4)]
@@ -83,7 +83,32 @@ fn k_update_headers_1lod_2meshes() {
     core::mem::forget(mdl);
 }
 
-//@unit props=C07 label=S tier=quick fn=model::MDL::update_headers bound="3 LODs x 1 mesh each, single stream of stride 16; all counts symbolic (index counts < 2^24)"
+//@unit props=C07 label=S tier=quick fn=model::MDL::update_headers bound="1 LOD x 1 mesh, stream strides {20,24}; vertex/index count, previous offsets and sizes symbolic (index count < 2^24)"
+//@desc smallest layout: stream offsets 0 and 20*count; vertex size 44*count; index size 2*indices padded by 1..16 to a multiple of 16; index section follows vertex section; file header mirrors the LOD
+#[kani::proof]
+#[kani::unwind(4)]
+fn k_update_headers_1lod_1mesh() {
+    let meshes = vec![cmesh(0, [20, 24, 0], 2)];
+    kani::assume(meshes[0].index_count < 0x0100_0000);
+    let (v0, i0) = (meshes[0].vertex_count as u32, meshes[0].index_count);
+    let mut mdl = mk(meshes, vec![lod(0, 1), lod(1, 0), lod(1, 0)], 1, 1);
+    kani::assume(mdl.model_data.header.string_size < 0x10000);
+    mdl.update_headers();
+    let l = &mdl.model_data.lods;
+    assert!(l[0].vertex_buffer_size == 44 * v0, "vertex section size = count x total stride");
+    assert!(pad16_ok(l[0].index_buffer_size, i0 * 2), "index section = 2 x indices, padded by 1..16 to a multiple of 16");
+    assert!(l[0].vertex_data_offset == mdl.file_header.runtime_size + 0x44 + mdl.file_header.stack_size, "data starts after header, stack, runtime");
+    assert!(l[0].index_data_offset == l[0].vertex_data_offset + l[0].vertex_buffer_size, "index section follows the vertex section");
+    let m = &mdl.model_data.meshes;
+    assert!(m[0].vertex_buffer_offsets[0] == 0 && m[0].vertex_buffer_offsets[1] == 20 * v0, "streams consecutive from 0");
+    let fh = &mdl.file_header;
+    assert!(fh.vertex_buffer_size[0] == l[0].vertex_buffer_size && fh.index_buffer_size[0] == l[0].index_buffer_size && fh.vertex_offsets[0] == l[0].vertex_data_offset && fh.index_offsets[0] == l[0].index_data_offset, "file header mirrors LOD 0");
+    assert!(fh.stack_size == 17 * 8, "stack size = declarations x 17 x 8");
+    kani::cover!(true, "reachable");
+    core::mem::forget(mdl);
+}
+
+//@unit props=C07 label=S tier=thorough fn=model::MDL::update_headers bound="3 LODs x 1 mesh each, single stream of stride 16; all counts symbolic (index counts < 2^24)"
 //@desc sections of the three LODs are chained vertex0,index0,vertex1,index1,vertex2,index2: pairwise disjoint, ordered and contiguous; each sized count x stride / padded 2 x indices; all three file-header slots mirror their LOD; per-LOD stream offsets restart at 0
 #[kani::proof]
 #[kani::unwind(5)]
@@ -115,7 +140,7 @@ fn k_update_headers_3lods() {
 //@unit props=C07 label=S tier=thorough fn=model::MDL::update_headers bound="2 LODs (2 meshes + 1 mesh), three streams of strides {12,8,4}; all counts symbolic (index counts < 2^24)"
 //@desc same contract on a second layout: three streams per mesh, two meshes in LOD 0 and one in LOD 1
 #[kani::proof]
-#[kani::unwind(5)]
+#[kani::unwind(6)]
 fn k_update_headers_2lods_3streams() {
     let meshes = vec![cmesh(0, [12, 8, 4], 3), cmesh(1, [12, 8, 4], 3), cmesh(2, [12, 8, 4], 3)];
     kani::assume(meshes[0].index_count < 0x0100_0000 && meshes[1].index_count < 0x0100_0000 && meshes[2].index_count < 0x0100_0000);
@@ -136,10 +161,10 @@ fn k_update_headers_2lods_3streams() {
     core::mem::forget(mdl);
 }
 
-//@unit props=C07,C02 label=P tier=quick fn=model::ModelFileHeader(derive write+read) stubs=fmt::format
+//@unit props=C07,C02 label=P tier=thorough fn=model::ModelFileHeader(derive write+read) stubs=fmt::format
 //@desc the file header is written as 0x44 bytes with every field at its offset (version 0, stack 4, runtime 8, declaration count 12, material count 14, vertex offsets 16, index offsets 28, vertex sizes 40, index sizes 52, lod count 64, two bool bytes 65/66, pad 67) and reads back to the same value
 #[kani::proof]
-#[kani::unwind(5)]
+#[kani::unwind(70)]
 #[kani::stub(alloc::fmt::format, stub_fmt)]
 fn k_model_file_header_layout() {
     let h = ModelFileHeader { version: kani::any(), stack_size: kani::any(), runtime_size: kani::any(), vertex_declaration_count: kani::any(), material_count: kani::any(),
@@ -170,7 +195,7 @@ fn wsize<T: BinWrite>(v: &T) -> u64 where for<'a> T::Args<'a>: Default {
     w.position()
 }
 
-//@unit props=C07 label=P tier=quick fn=model::ModelData::calculate_runtime_size,model::ModelFileHeader::calculate_stack_size bound=""
+//@unit props=C07 label=P tier=thorough fn=model::ModelData::calculate_runtime_size,model::ModelFileHeader::calculate_stack_size bound=""
 //@desc the per-record constants of the runtime-size formula equal the number of bytes the derive-generated writers emit: MeshLod 60, Mesh 36, Submesh 16, TerrainShadowMesh 20, ElementId 32, BoneTable 132, ShapeStruct 16, ShapeMesh 12, ShapeValue 4, BoundingBox 32, VertexElement 8
 #[kani::proof]
 #[kani::unwind(66)]
@@ -190,7 +215,7 @@ fn k_runtime_size_record_constants() {
 }
 
 //@unit props=C07 label=P tier=quick fn=model::ModelData::calculate_runtime_size bound=""
-//@desc the terrain-shadow sub-mesh constant of the runtime-size formula (10) equals the bytes the writer emits for that record
+//@desc the terrain-shadow sub-mesh constant of the runtime-size formula equals the bytes the writer emits for that record
 #[kani::proof]
 #[kani::unwind(6)]
 #[kani::stub(alloc::fmt::format, stub_fmt)]
@@ -207,7 +232,7 @@ fn k_runtime_size_terrain_shadow_submesh() {
     core::mem::forget(mdl);
 }
 
-//@unit props=C07 label=S tier=quick fn=model::ModelData(derive write),model::ModelData::calculate_runtime_size,model::ModelFileHeader::calculate_stack_size bound="model value with 2 meshes, 2 sub-meshes, 0 declarations, empty string table and no optional tables (version 5)" stubs=fmt::format
+//@unit props=C07 label=S tier=parked fn=model::ModelData(derive write),model::ModelData::calculate_runtime_size,model::ModelFileHeader::calculate_stack_size bound="model value with 2 meshes, 2 sub-meshes, 0 declarations, empty string table and no optional tables (version 5)" stubs=fmt::format
 //@desc the derive-generated writer of the whole runtime block emits exactly stack_size + runtime_size bytes for this shape (so the vertex data offset computed by update_headers is where the writer's cursor ends)
 #[kani::proof]
 #[kani::unwind(8)]
